@@ -165,7 +165,9 @@ pub fn make_paged() {
     }
     let a = crate::arena::Arena::map_anywhere(10);
     for f in 1..=4usize {
-        let addr = a.put_bytes((2 * f - 1) * 4096 + 0x40 * f, &paged_code(f, 0));
+        // f2's entry straddles a page boundary (3 bytes on its first page)
+        let off = if f == 2 { (2 * f - 1) * 4096 + 4096 - 3 } else { (2 * f - 1) * 4096 + 0x40 * f };
+        let addr = a.put_bytes(off, &paged_code(f, 0));
         PAGED[f].store(addr, SeqCst);
     }
     a.seal();
